@@ -211,7 +211,8 @@ func c12R4(c *Ctx, r *Report, rule string) {
 	for _, ret := range returnsOf(fn) {
 		if len(ret.Results) == 1 {
 			for _, cd := range edgeConds(ret.Block()) {
-				if bo, ok := cd.V.(*ssa.BinOp); ok && cd.Truth && bo.Op.String() == "!=" {
+				// s != "" taken, or s == "" not taken (the default arm of a switch over the resolved option)
+				if bo, ok := cd.V.(*ssa.BinOp); ok && ((cd.Truth && bo.Op.String() == "!=") || (!cd.Truth && bo.Op.String() == "==")) {
 					if s, isStr := constString(bo.Y); isStr && s == "" {
 						if call, ok := ret.Results[0].(*ssa.Call); ok && calleeID(call) == "fmt.Errorf" {
 							rejects = true
